@@ -1,8 +1,25 @@
 """C15 — MultiKeyDict / StrategyDict coherence.  A case is a whole history; impl, three-map
 model and abstract spec are observed after every step."""
+import gc
 import itertools
 import common
 from common import err_kind
+
+# Performance only: the histories and their observations are millions of small, long-lived,
+# acyclic containers; CPython's generational collector re-traverses them again and again (measured:
+# 10x on the JSON parse of the driver output).  Automatic collection is switched off in this
+# process; the only cyclic garbage (one throw-away class per StrategyDict instance) is collected
+# by hand every few thousand histories, and the survivors are frozen out of later collections.
+gc.disable()
+_SD_CALLS = [0]
+
+
+def _gc_tick():
+    _SD_CALLS[0] += 1
+    if _SD_CALLS[0] % 3000 == 0:
+        gc.collect()
+        gc.freeze()
+
 
 ID = "C15"
 RULE = ("exhaustive histories over small universes (mk: 3 keys x 2 values, tuples of length <= 2, "
@@ -141,6 +158,14 @@ def _rand_sd(rng, nkeys, nvals, length):
     ops = []
     for _ in range(length):
         r = rng.random()
+        if r < 0.12 and ops:
+            # aim at the attribute branches: touch the name used by an earlier assignment
+            prev = [o for o in ops if o[0] == "set"]
+            if prev:
+                k = rng.choice(rng.choice(prev)[1])
+                ops.append(rng.choice([["setattr", k, rng.choice(vals)], ["delattr", k], ["del", k],
+                                       ["getattr", k]]))
+                continue
         if r < 0.40:
             t = _rand_tuple(rng, keys, 3)
             ops.append(["set", t, rng.choice(vals)])
@@ -171,10 +196,11 @@ def generate(rng, tier, scale=1):
         ops = _mk_ops(MK_KEYS, [0, 1], 2)
         sops = _sd_ops(SD_KEYS, [0, 1])
         for depth in (1, 2, 3):
+            view = "all" if depth < 3 else "last"
             for h in itertools.product(ops, repeat=depth):
-                cases.append(_case("mk", [list(o) for o in h], view="last"))
+                cases.append(_case("mk", [list(o) for o in h], view=view))
             for h in itertools.product(sops, repeat=depth):
-                cases.append(_case("sd", [list(o) for o in h], view="last"))
+                cases.append(_case("sd", [list(o) for o in h], view="all"))
         if not quick:
             ops2 = _mk_ops(["a", "b"], [0, 1], 2)
             for h in itertools.product(ops2, repeat=4):
@@ -318,6 +344,7 @@ class _Strategies:
 
 def _impl_sd(c):
     from audiolazy import StrategyDict
+    _gc_tick()
     ops = c["ops"]
     keys, vals = c["keys"], c["vals"]
     st = _Strategies(max(vals) + 1)      # vals always contains the unused identity 9
@@ -485,9 +512,21 @@ def first_diff(c, io, drv, kind):
     return None
 
 
+def _has_empty_set(c):
+    return any(o[0] == "set" and o[1] == [] for o in c["ops"])
+
+
 def compare(c, io, drv):
     out = []
-    for kind in ("model", "spec"):
+    # The empty key tuple is outside the property's quantifier and outside the theorems
+    # (`Op.valid`).  The spec reads `d[()] = v` as "bind no key" = no change; the model follows the
+    # code as it is today.  For such histories only the spec is authoritative (so that a repaired
+    # repo is not reported as a broken correspondence); when impl and spec differ the model
+    # comparison is reported as well.
+    kinds = ("model", "spec")
+    if _has_empty_set(c) and first_diff(c, io, drv, "spec") is None:
+        kinds = ("spec",)
+    for kind in kinds:
         d = first_diff(c, io, drv, kind)
         if d is not None:
             i, bad = d
@@ -531,6 +570,8 @@ def tally(eng, c, io):
         if name in ("setattr", "delattr") and op[1] is None:
             name += "/default"
         eng.count("op", "%s:%s" % (name, tag))
+    for tag in _branches(c, io):
+        eng.count("branch", tag)
     last = [s for s in io["steps"] if s is not None]
     if last:
         v = last[-1]
@@ -543,8 +584,75 @@ def tally(eng, c, io):
 
 
 # ----------------------------------------------------------------------------
-# branch coverage of the modelled code, measured on the impl by the history itself
+# branch coverage of the modelled code, read off the impl's own observations (state before the
+# step + operation); only for histories observed after every step
 # ----------------------------------------------------------------------------
+_EMPTY_VIEW = {"items": [], "attrs": [], "default": "NotImplemented"}
+
+
+def _branches(c, io):
+    if "err" in io or c.get("view", "all") != "all":
+        return
+    prev = _EMPTY_VIEW
+    for op, st in zip(c["ops"], io["steps"]):
+        if st is None or "items" not in st:
+            prev = None
+            continue
+        if prev is not None:
+            bound = {k: x[1] for x in prev["items"] for k in x[0]}
+            group = {x[1]: x[0] for x in prev["items"]}
+            attrs = dict((a[0], a[1]) for a in prev.get("attrs", []))
+            dflt = prev.get("default")
+            o = op[0]
+            if o in ("set", "sets"):
+                ks = op[1] if isinstance(op[1], list) else [op[1]]
+                v = op[2]
+                yield "set:value-%s" % ("already-stored(merge)" if v in group else "new")
+                if len(set(ks)) < len(ks):
+                    yield "set:duplicate-key-in-tuple"
+                if any(k in bound and bound[k] != v for k in ks):
+                    yield "set:overwrites-key-of-other-value"
+                if any(k in bound and bound[k] == v for k in ks):
+                    yield "set:re-gives-own-key(reorder)"
+                if not any(k in bound for k in ks):
+                    yield "set:only-fresh-keys"
+                if any(w != v and all(k in ks for k in t) for w, t in group.items()):
+                    yield "set:other-value-loses-all-keys"
+                if c["entry"] == "sd":
+                    d = dflt["v"] if isinstance(dflt, dict) else None
+                    if d is None:
+                        yield "sd-set:no-default->chosen"
+                    elif d in group and all(k in ks for k in group[d]):
+                        yield "sd-set:default-loses-all-names->rechosen"
+                    else:
+                        yield "sd-set:default-kept"
+            elif o == "del":
+                k = op[1]
+                if k not in bound:
+                    yield "del:missing(KeyError)"
+                else:
+                    w = bound[k]
+                    yield "del:%s" % ("last-key-of-value" if group[w] == [k] else "tuple-shrinks")
+                    if c["entry"] == "sd":
+                        yield "sd-del:attr-%s" % ("equal->removed" if attrs.get(k) == w else
+                                                  ("differs->kept" if k in attrs else "absent"))
+                        d = dflt["v"] if isinstance(dflt, dict) else None
+                        yield "sd-del:default-%s" % ("removed" if d == w and group[w] == [k] else "kept")
+            elif o == "delattr":
+                k = op[1]
+                if k is None:
+                    yield "delattr-default:%s" % ("present" if isinstance(dflt, dict) else "absent(AttributeError)")
+                elif k not in bound:
+                    yield "delattr:non-strategy-%s" % ("attribute" if k in attrs else "missing(AttributeError)")
+                elif k not in attrs:
+                    yield "delattr:strategy-without-attribute(AttributeError)"
+                elif attrs[k] == bound[k]:
+                    yield "delattr:have-both-equal->del-item"
+                else:
+                    yield "delattr:have-both-different->attribute-put-back"
+        prev = st
+
+
 def shrink(c):
     ops = c["ops"]
     n = len(ops)
